@@ -10,7 +10,7 @@ from checks import docs, loadlib, loadcheck
 PROP = 'C02'
 TARGETS = ['theories/Proofs/EscapeProofs.v', 'theories/Proofs/IntTextProofs.v', 'theories/Proofs/GrammarObligations.v',
            'theories/Proofs/StrictWholeProofs.v', 'theories/Proofs/SeqMonoProofs.v', 'theories/Proofs/ParseOrderProofs.v',
-           'theories/Proofs/ParseTraceProofs.v', 'theories/Run/RunLoad.v']
+           'theories/Proofs/LineOffsetProofs.v', 'theories/Proofs/ParseTraceProofs.v', 'theories/Proofs/LoadWriteDocProofs.v', 'theories/Run/RunLoad.v']
 ROUNDTRIP_STAGE = True        # counts the elements of every loaded document that meet the value condition of the load -> write theorem
 RULE = ('valid documents from the regenerated grammar in strict mode (all layouts, comments, number notations, IF_DATA absent / '
         'uninterpreted / A2ML-described); boundary sweep: every integer field type of the grammar (i16 u16 i32 u32 u64) x '
@@ -45,7 +45,7 @@ def boundary_cases():
 def ifdata_number_cases():
     cases = []
     lits = ['0', '255', '-128', '65535', '2147483647', '-2147483648', '2147483648', '4294967295', '4294967296', '4294967297',
-            '0xFF', '0xFFFFFFFF', '0x1FFFFFFFF', '0xFFFFFFFFFFFFFFFF', '1.0', '1e3', '0.1', '2.5', '-0.5', '16777217', '1e-3']
+            '0xFF', '0x1E', '0x1E000001', '0x7FFFFFFE', '0xe5', '0xFFFFFFFF', '0x1FFFFFFFF', '0xFFFFFFFFFFFFFFFF', '1.0', '1e3', '0.1', '2.5', '-0.5', '16777217', '1e-3']
     for lit in lits:
         t = ('ASAP2_VERSION 1 71 /begin PROJECT p "" /begin MODULE m "" /begin IF_DATA VENDOR %s "s" /begin BLK %s id /end BLK /end IF_DATA '
              '/end MODULE /end PROJECT') % (lit, lit)
@@ -145,9 +145,32 @@ def collect_comments(node, out=None):
     return out
 
 
+def explained_by_storage(literal):
+    """is a change of this number literal explained by the recorded finding (uninterpreted IF_DATA stores numbers as i32, else
+    as f32)?  An integer literal that fits an i32 and a decimal literal that an f32 holds exactly must come back unchanged."""
+    import struct
+    t = literal.strip()
+    try:
+        if t.lower().startswith('0x') or t.lower().startswith('-0x'):
+            v = int(t, 16)
+            return not (-(1 << 31) <= v < (1 << 31))
+        if all(ch in '+-0123456789' for ch in t):
+            v = int(t)
+            return not (-(1 << 31) <= v < (1 << 31))
+        x = float(t)
+        return struct.unpack('<f', struct.pack('<f', x))[0] != x
+    except (ValueError, OverflowError, struct.error):
+        return True
+
+
 def classify_known(c, why, r):
-    if c['kind'] == 'ifdata-number' or ('IF_DATA' in c['text'] and 'number' in why and in_ifdata(c, why)):
-        return 'unknown-ifdata-number-precision'
+    import re
+    if c['kind'] == 'ifdata-number':
+        return 'unknown-ifdata-number-precision' if explained_by_storage(c['literal']) else None
+    if 'IF_DATA' in c['text'] and 'number' in why and in_ifdata(c, why):
+        m = re.search(r"input number '([^']*)'", why)
+        if m is None or explained_by_storage(m.group(1)):
+            return 'unknown-ifdata-number-precision'
     return None
 
 
